@@ -157,6 +157,24 @@ def run_ffi(pid, tier, seed, replay, ctx):
                 dis.append(f"driver could not parse {ws[1]} case blocks of {name}")
         if seen != len(blocks):
             dis.append(f"driver reported {seen} cases of {len(blocks)} for {name}")
+    # wall-clock differential: the API and a Framework<_, std::time::Instant> in lockstep (harness ffi-timed)
+    timed = {"scenarios": 0, "informative": 0, "repeated": 0}
+    if not replay:
+        rc, out = sh([ctx["HBIN"], "ffi-timed"], timeout=600)
+        if rc != 0:
+            mons.append((f"{pid}:crash", f"the C API crashed the harness process (exit status {rc}) in the wall-clock scenarios\n" + out[-2000:]))
+        for line in out.split("\n"):
+            ws = line.split()
+            if len(ws) >= 5 and ws[0] == "timed":
+                timed["scenarios"] += 1
+                evaluations += 1
+                timed["informative"] += 1 if "informative=1" in ws else 0
+                timed["repeated"] += 0 if "tries=1" in ws else 1
+                if ws[2] != "ok":
+                    mons.append((f"{pid}:wall-clock scenario {ws[1]}: API and Rust framework disagree",
+                                 "harness ffi-timed: the C API and Framework<_, std::time::Instant> driven in lockstep with real sleeps return "
+                                 "different numbers of actions per call (three repetitions, all disagreeing); scenario steps are in "
+                                 "harness/src/ffi.rs `timed`\n" + line + "\n"))
     uniq = {}
     for k, t in mons:
         uniq.setdefault(k, t)
@@ -175,7 +193,7 @@ def run_ffi(pid, tier, seed, replay, ctx):
         "monitor_failures": list(uniq.items()),
         "extra": {"feature_distribution": dist, "projection_tags": sorted(C20_TAGS), "on_events_calls_checked": calls,
                   "disagreements_outside_projection": other[:20], "disagreements_outside_projection_count": len(other),
-                  "leak_check": leak},
+                  "leak_check": leak, "wall_clock_lockstep": timed},
     }
 
 
